@@ -121,11 +121,17 @@ impl MinCostFlowSolver {
             .vehicle_types
             .iter()
             .map(|vehicle_type| {
+                let total_distance = total_distances[&vehicle_type].in_meter().unwrap();
                 (
                     vehicle_type,
-                    1.0 // x% of the maintenance limit is used
-                        * self.config.maintenance.maximal_distance.in_meter().unwrap() as f32
-                        / total_distances[&vehicle_type].in_meter().unwrap() as f32,
+                    if total_distance == 0 {
+                        // a type without trips needs no slot (and 0.0 / 0.0 would be NaN)
+                        f32::INFINITY
+                    } else {
+                        1.0 // x% of the maintenance limit is used
+                            * self.config.maintenance.maximal_distance.in_meter().unwrap() as f32
+                            / total_distance as f32
+                    },
                 )
             })
             .collect();
